@@ -37,6 +37,29 @@ pub fn run(rep: &Report) -> serde_json::Value {
         }
         (total, wraps_seen)
     }).collect();
+    // "every identifier carries the creation value in force when it was made": every sequence of <= 3 creations from a set
+    // (growing, shrinking, repeated, zero, the extremes), an allocation after each
+    {
+        let cs = [0u32, 1, 2, 3, 4, 0xffff, 0x1_0000, u32::MAX];
+        let mut seqs: Vec<Vec<u32>> = vec![];
+        for &a in &cs { seqs.push(vec![a]); for &b in &cs { seqs.push(vec![a, b]); for &c in &cs { seqs.push(vec![a, b, c]); } } }
+        for initial in [1u32, 3, u32::MAX] {
+            for sq in &seqs {
+                rep.add("evaluations", 1);
+                let a = PidAllocator::new(Atom::new("n@h"), initial);
+                let first = a.allocate().map(|p| p.creation).ok();
+                let mut trace = vec![(initial, first, a.creation().0)];
+                let mut ok = first == Some(initial) && a.creation().0 == initial;
+                for &c in sq {
+                    a.set_creation(c);
+                    let got = a.allocate().map(|p| p.creation).ok();
+                    ok &= got == Some(c) && a.creation().0 == c;
+                    trace.push((c, got, a.creation().0));
+                }
+                if !ok { rep.violation("an identifier does not carry the creation in force when it was made", json!({"(creation set, creation of the next pid, allocator.creation())": format!("{:?}", trace)})); }
+            }
+        }
+    }
     let total: u64 = res.iter().map(|r| r.0).sum();
     let wraps_seen: u64 = res.iter().map(|r| r.1).sum();
     rep.sample(json!({"start": "next_id=MAX-5, serial=2^32-2", "allocations": 3 * MAX as u64 + 10, "checks": "all (id, serial) distinct, ids in 1..=MAX, serial advances at every wrap incl. across 2^32"}));
